@@ -114,6 +114,88 @@ def one_run(tid, sc, rng):
     return {"tid": tid, "hdr": hdr, "ev": ev}
 
 
+def one_run_2d(tid, sc, rng):
+    """the same end to end on the REAL Levy-copula coupling (two dimensions): underlying NthSpot(k) or Mean"""
+    import rpylib.montecarlo.multilevel.engine as eng
+    from rpylib.distribution.sampling import SamplingMethod
+    from rpylib.grid.spatial import CTMCGrid
+    from rpylib.montecarlo.configuration import ConfigurationMultiLevel, ConvergenceRates
+    from rpylib.montecarlo.multilevel.criteria import ConvergenceCriteria
+    from rpylib.process.coupling.couplinglevycopula import CouplingProcessLevyCopula
+    from rpylib.product.payoff import Forward, PayoffType, Vanilla
+    from rpylib.product.product import Product
+    from rpylib.product.underlying import Mean, NthSpot
+    d, step = 2, 32
+    axis = np.array([j * step * U for j in range(-1, 2)])
+    grid = CTMCGrid(h=step * U, origin_coordinate=1, axes=[axis] * d)
+    pts = list(range(-31, 32, 4))
+    atoms = [((a, b), rng.randint(1, 2)) for a in pts for b in pts if rng.random() < 0.5]
+    model = atomic.atom_copula_model(atoms, d, drifts=[sc["a"][0] * U, sc["a"][1] * U])
+    for m, sg in zip(model.models, sc["sigmas"]):
+        m.levy_triplet.sigma = sg * U
+    model.df = lambda t: 0.5
+    for m in model.models:
+        m.df = lambda t: 0.5
+    cp = CouplingProcessLevyCopula(levy_copula_model=model, grid=grid, method=SamplingMethod.BINARYSEARCHTREEADAPTED)
+    kind, K = sc["payoff"]
+    payoff = Forward(strike=K * U) if kind == "forward" else Vanilla(strike=K * U, payoff_type=PayoffType.CALL if kind == "call" else PayoffType.PUT)
+    und = sc["und"]
+    underlying = Mean() if und == 0 else NthSpot(und)
+    product = Product(underlying, payoff, maturity=1.0, notional=1.0)
+    conf = ConfigurationMultiLevel(convergence_rates=ConvergenceRates(1.0, 1.0, 1.0), initial_level=0, maximum_level=sc["LMax"],
+                                   initial_mc_paths=sc["N0"], seed=sc["seed"], nb_of_processes=1)
+    engine = eng.Engine(conf, cp)
+    hdr = {"kind": f"run2d:{kind}:und{und}", "K": int(K), "payoff": kind, "L0": 0, "und": und, "d": d}
+    ev = []
+    real_create, real_cos, real_normal = eng.create_mlmc_statistics, eng.COSPricer, np.random.normal
+
+    def create_stats(*a, **k):
+        st = real_create(*a, **k)
+        r_add = st.add
+
+        def add(simulation, level, pm):
+            r_add(simulation, level, pm)
+            sp = pm.stochastic_path
+            times = np.asarray(sp.times(), dtype=float)
+            det = np.asarray(pm.deterministic_path(times), dtype=float)
+            dif = np.asarray(sp.diffusion_path, dtype=float)
+            jmp = np.asarray(sp.jump_path, dtype=float)
+            pay = np.ravel(np.asarray(pm.payoff, dtype=float))
+            coupled = det.ndim == 3
+            # rows: [component][dimension] terminal values in units
+            def rows(x):
+                x = x if coupled else x[np.newaxis, ...]
+                return [[exact_int(float(x[c][j][-1]) / U, tol=1e-7) for j in range(d)] for c in range(x.shape[0])]
+            e = {"e": "Sample2", "lvl": int(level), "idx": int(simulation), "coupled": bool(coupled), "T": exact_int(times[-1]),
+                 "det": rows(det), "dif": rows(dif), "jmp": rows(jmp),
+                 # Mean of two components: doubled payoffs are integers in half units
+                 "pay4": [exact_int(4.0 * float(p) / U, tol=1e-7) for p in pay]}
+            e["bad"] = count_bad(e)
+            ev.append(e)
+        st.add = add
+        return st
+    eng.create_mlmc_statistics = create_stats
+    eng.COSPricer = stubs.DummyCOSPricer
+    np.random.normal = ScriptedNormal()
+    try:
+        stats = engine.price_with_constant_mc_paths_and_level(product)
+        res = stats.mlmc_results
+        nl_ = [int(x) for x in res.Nl]
+        dps = [exact_int(4.0 * float(m) * n / U, tol=1e-6) for m, n in zip(np.ravel(res._ncms_dp.ncm_first), nl_)]
+        prod_n = 1
+        for n in nl_:
+            prod_n *= n
+        e = {"e": "Ret2", "Nl": nl_, "dpsum4": dps, "price_scaled": exact_int(4.0 * float(stats.price()) * prod_n / U, tol=1e-5), "prodN": prod_n}
+        e["bad"] = count_bad(e)
+        ev.append(e)
+    except Exception as ex:
+        import traceback
+        ev.append({"e": "Raise", "what": type(ex).__name__ + ": " + str(ex)[:100], "tb": traceback.format_exc()[-600:]})
+    finally:
+        eng.create_mlmc_statistics, eng.COSPricer, np.random.normal = real_create, real_cos, real_normal
+    return {"tid": tid, "hdr": hdr, "ev": ev}
+
+
 def main():
     out, tier, seed = sys.argv[1], sys.argv[2], int(sys.argv[3])
     quick = tier == "quick"
@@ -129,6 +211,11 @@ def main():
               "sigma": rng.choice([0, 4, 8]), "a": rng.randint(-12, 12),
               "payoff": rng.choice([("forward", rng.randint(-20, 20)), ("call", rng.choice([-16, 0, 10, 48])), ("put", rng.choice([-8, 6, 32]))])}
         traces.append(one_run(f"u{len(traces)}", sc, rng))
+    for rep in range(4 if quick else 16):
+        sc = {"LMax": rng.choice([1, 1, 2]), "N0": rng.choice([2, 3]), "seed": rng.randint(1, 10 ** 6), "sigmas": rng.choice([(0, 0), (8, 8), (8, 16)]),
+              "a": (rng.randint(-9, 9), rng.randint(-9, 9)), "und": rep % 3,
+              "payoff": rng.choice([("forward", rng.randint(-20, 20)), ("call", rng.choice([-16, 0, 10])), ("put", rng.choice([-8, 6, 32]))])}
+        traces.append(one_run_2d(f"u{len(traces)}", sc, rng))
     with open(out, "w") as f:
         for t in traces:
             f.write(json.dumps(t, separators=(",", ":")) + "\n")
